@@ -1,0 +1,17 @@
+//go:build verif
+
+// Contracts for package unionfind, checked by /verif/gocv (comment-only file; no code).
+
+package unionfind
+
+// The representative of a variable is a function of the union-find value and the variable (body: path walk over
+// the parent map, not verified here).
+//@ func (uf UnionFind) Get(v)
+//@   pure
+//@   trusted
+//@   modifies nothing
+
+// Unification works on a clone of the given union-find: nothing reachable by the caller is written (ASSUMED).
+//@ func UnifyTermsExtend(xs, ys, base)
+//@   trusted
+//@   modifies nothing
